@@ -83,9 +83,21 @@ inductive Err where
   | txs                -- "failed to execute txs"
   | root               -- ErrStateRootMismatch
   | sigs               -- "signatures failed verification"
+  | feePanic           -- Go run-time panic (slice bounds) decoding a truncated fee state
   deriving DecidableEq, Repr
 
 open HyperModel.Generated.C11 (futureBoundMs genesisHeaderTimestamp)
+
+/-- `len(raw)` of a complete `internal/fees.Manager` state:
+`consts.Int64Len + FeeDimensions * dimensionStateLen` (constants read from the running code) -/
+def feeStateLen : Nat :=
+  8 + HyperModel.Generated.C27.feeDimensions * (8 + HyperModel.Generated.C27.windowSliceSize + 8)
+
+/-- `fees.NewManager(raw).ComputeNext(..)` does not panic: an empty value stands for a fresh
+manager, anything else is sliced up to `feeStateLen` (longer values: the tail is ignored) -/
+def FeeOk (raw : Bytes) : Prop := raw.length = 0 ∨ feeStateLen ≤ raw.length
+
+instance (raw : Bytes) : Decidable (FeeOk raw) := by unfold FeeOk; exact inferInstance
 
 /-- `createBlockContext`: the checks against the parent *state*; returns nothing but success
 (the fee manager is part of `Env`). -/
@@ -109,7 +121,11 @@ def createBlockContext (r : Rules) (p : View) (b : Block) : Except Err Unit :=
             .error .tooEarlyEmpty else
           match p.feeRaw with
           | none => .error .fetchFee
-          | some _ => .ok ()
+          | some raw =>
+            -- `fees.NewManager(parentFeeRaw).ComputeNext(block.Tmstmp, r)`: a non-empty value
+            -- shorter than a complete state makes Go panic (slice bounds out of range); the
+            -- state written by `writeBlockContext` / genesis is always complete
+            if FeeOk raw then .ok () else .error .feePanic
 
 /-- the view after `writeBlockContext` + `createView`: the metadata keys hold the block's
 height / timestamp and the next fee bytes (inserted last, so nothing a transaction wrote
